@@ -770,19 +770,6 @@ func Generate(repoDir, outDir, shimDir string) (overlayPath string, st Stats, er
 				}
 				return true
 			})
-			for _, n := range []string{"Cond", "NewCond", "Map"} {
-				ast.Inspect(f, func(m ast.Node) bool {
-					if sel, ok := m.(*ast.SelectorExpr); ok && sel.Sel.Name == n {
-						if id, ok := sel.X.(*ast.Ident); ok && id.Name == "sync" {
-							st.Uninstrumented = append(st.Uninstrumented, fmt.Sprintf("%s: sync.%s is not modelled", p.Fset.Position(sel.Pos()), n))
-							// a real Cond.Wait parks the goroutine behind the scheduler's back,
-							// a real Map hides its synchronisation: same treatment as channels
-							st.Channels = append(st.Channels, fmt.Sprintf("%s (sync.%s)", p.Fset.Position(sel.Pos()), n))
-						}
-					}
-					return true
-				})
-			}
 			rw.file(f)
 			// init functions become ordinary functions that a generated init calls,
 			// so that VerifReset can run them again after zeroing the package state
